@@ -285,8 +285,15 @@ class AbstractDateTime(AnyAtomicType):
             raise TypeError("wrong type %r for operand %r" % (type(other), other))
 
         if self._year != year:
-            return op(self._year, year)
-        elif self._dt.tzinfo is dt.tzinfo:
+            # Values of contiguous years can be in reverse order because of timezones
+            if abs(self._year - year) > 1 and (self._year < 0) is (year < 0):
+                return op(self._year, year)
+            elif not (1 <= self._year <= 9999 and 1 <= year <= 9999):
+                if isinstance(other, AbstractDateTime):
+                    return op(self.todelta(), other.todelta())
+                return op(self._year, year)
+
+        if self._dt.tzinfo is dt.tzinfo:
             return op(self._dt, dt)
         elif self.tzinfo is None:
             return op(self._dt.replace(tzinfo=_UTC_TIMEZONE), dt)
